@@ -16,7 +16,7 @@ import time
 from .common import PTA_SRC, VERIF_DIR
 
 MAX_VIOLATIONS_PER_SHARD = 40
-MAX_SIGNATURES_REPORTED = 30
+MAX_SIGNATURES_REPORTED = 12
 
 
 class Result:
@@ -289,6 +289,7 @@ def execute(mod, tier: str, seed: int) -> int:
     reported = 0
     known_hit = []
     rc = 0
+    shard_confirmed: dict = {}
     for sig, v in sorted(by_sig.items()):
         if sig in known:
             known_hit.append(sig)
@@ -314,7 +315,12 @@ def execute(mod, tier: str, seed: int) -> int:
             with open(path, "w") as f:
                 json.dump(shard_rec, f, indent=1, sort_keys=True, default=str)
                 f.write("\n")
-            if v.get("_shard") is None or not confirm(path):
+            # one confirmation per (shard, kind): re-running the same shard for every further violation of the
+            # same kind found in it would prove nothing new and costs a full shard run each time
+            skey = (json.dumps(v.get("_shard"), sort_keys=True, default=str), v["kind"])
+            if v.get("_shard") is not None and skey not in shard_confirmed:
+                shard_confirmed[skey] = confirm(path)
+            if v.get("_shard") is None or not shard_confirmed[skey]:
                 print(
                     f"HARNESS FAULT: violation does not reproduce from a fresh interpreter: {path}"
                 )
